@@ -49,6 +49,7 @@ def gen_history(tape, max_tests=5, runs=True, tags=True, times=True, extras=True
     """A well-formed history of TestResult calls as data."""
     h = []
     counter = [0]
+    last_time = [None]
 
     def mark():
         counter[0] += 1
@@ -67,7 +68,12 @@ def gen_history(tape, max_tests=5, runs=True, tags=True, times=True, extras=True
                 if k <= 1 and tags:
                     h.append(["tags"] + list(_tagpair(tape)))
                 elif k == 2 and times:
-                    h.append(["time", mark()])
+                    # now and then the very value supplied last (two tests back to back)
+                    if last_time[0] is not None and tape.chance("program", 1, 4, "same-time-again"):
+                        h.append(["time", last_time[0]])
+                    else:
+                        last_time[0] = mark()
+                        h.append(["time", last_time[0]])
                 elif k == 3 and times:
                     h.append(["time", None])
                 elif k == 4 and extras:
@@ -125,6 +131,8 @@ def gen_history(tape, max_tests=5, runs=True, tags=True, times=True, extras=True
                         if tape.chance("payload", 1, 4, "empty-chunk"):
                             chunks.insert(tape.draw("payload", len(chunks) + 1, "pos"), b"")
                         det[name] = ["text", chunks]
+                if method == "addSkip" and tape.chance("program", 1, 2, "reason-detail"):
+                    det["reason"] = ["text", [payload["reason"].encode("utf8")]]
                 payload["details"] = det
             elif mode == "exc_info":
                 payload["exc"] = "EXC%d" % mark()
@@ -196,6 +204,10 @@ class Reporter:
         self.i = 0
         # a reporter may refill one dict object for every outcome it reports
         self.shared = {} if reuse_details_dict else None
+        self.tagsets = {}     # a reporter may hold on to its tag sets and pass the same objects again
+        self.reuse_tag_sets = False
+        self.last_details = None
+        self.mutated_args = []
 
     def test(self, tid, kind):
         t = self.tests.get(tid)
@@ -216,7 +228,16 @@ class Reporter:
         elif op == "progress":
             r.progress(1, 1)
         elif op == "tags":
-            r.tags(set(c[1]), set(c[2]))
+            if self.reuse_tag_sets:
+                new = self.tagsets.setdefault(("n",) + tuple(c[1]), set(c[1]))
+                gone = self.tagsets.setdefault(("g",) + tuple(c[2]), set(c[2]))
+                snap = (set(new), set(gone))
+                r.tags(new, gone)
+                if (new, gone) != snap:
+                    self.mutated_args.append((c, snap, (set(new), set(gone))))
+                    new.clear(); new.update(snap[0]); gone.clear(); gone.update(snap[1])
+            else:
+                r.tags(set(c[1]), set(c[2]))
         elif op == "time":
             r.time(None if c[1] is None else vclock.explicit_time(c[1]))
         elif op == "startTest":
@@ -233,6 +254,7 @@ class Reporter:
                     self.shared.clear()
                     self.shared.update(det)
                     det = self.shared
+                self.last_details = det
                 m(t, details=det)
             elif mode == "exc_info":
                 m(t, make_exc_info(payload["exc"]))
@@ -269,7 +291,7 @@ class TagModel:
 
 
 # ------------------------------------------------------------------------------ adapter stacks
-def gen_stack(tape, depth=0, need_ext=False, allow_bytest=True, max_depth=3):
+def gen_stack(tape, depth=0, need_ext=False, allow_bytest=True, max_depth=3, allow_tfr=False, allow_tagger=True):
     """Returns a stack spec (nested lists).  need_ext: the node must accept details=."""
     terminals = [(2, "extended"), (2, "testtools")]
     if not need_ext:
@@ -278,21 +300,25 @@ def gen_stack(tape, depth=0, need_ext=False, allow_bytest=True, max_depth=3):
         terminals += [(1, "bytest")]
     if depth >= max_depth:
         return [tape.weighted("config", terminals, "terminal")]
-    adapters = [(3, "e2o"), (3, "multi"), (2, "trd"), (2, "tagger")]
+    # (no Tagger beneath a ThreadsafeForwardingResult: the forwarder replays run-level tags after the
+    # startTest it synthesises, so how they combine with a Tagger's removals below it is not specified)
+    adapters = [(3, "e2o"), (3, "multi"), (2, "trd")] + ([(2, "tagger")] if allow_tagger else []) + ([(2, "tfr")] if allow_tfr else [])
     if depth == 0:
         kind = tape.weighted("config", adapters, "top")
     else:
         kind = tape.weighted("config", adapters + terminals, "node")
     if kind == "e2o":
-        return ["e2o", gen_stack(tape, depth + 1, False, allow_bytest, max_depth)]
+        return ["e2o", gen_stack(tape, depth + 1, False, allow_bytest, max_depth, allow_tfr, allow_tagger)]
     if kind == "multi":
         n = 1 + tape.draw("config", 3, "fanout")
-        return ["multi"] + [gen_stack(tape, depth + 1, False, allow_bytest, max_depth) for _ in range(n)]
+        return ["multi"] + [gen_stack(tape, depth + 1, False, allow_bytest, max_depth, allow_tfr, allow_tagger) for _ in range(n)]
+    if kind == "tfr":
+        return ["tfr", gen_stack(tape, depth + 1, False, allow_bytest, max_depth, allow_tfr, False)]
     if kind == "trd":
-        return ["trd", gen_stack(tape, depth + 1, True, allow_bytest, max_depth)]
+        return ["trd", gen_stack(tape, depth + 1, True, allow_bytest, max_depth, allow_tfr, allow_tagger)]
     if kind == "tagger":
         new, gone = _tagpair(tape)
-        return ["tagger", new, gone, gen_stack(tape, depth + 1, True, allow_bytest, max_depth)]
+        return ["tagger", new, gone, gen_stack(tape, depth + 1, True, allow_bytest, max_depth, allow_tfr, allow_tagger)]
     return [kind]
 
 
@@ -330,6 +356,11 @@ def build_stack(spec, world, built, path=(), taggers=(), make_testtools=None):
     elif kind == "multi":
         inners = [build_stack(s, world, built, path + ("multi",), taggers, make_testtools) for s in spec[1:]]
         obj = MultiTestResult(*inners)
+    elif kind == "tfr":
+        import threading
+        from testtools.testresult.real import ThreadsafeForwardingResult
+        inner = build_stack(spec[1], world, built, path + ("tfr",), taggers, make_testtools)
+        obj = ThreadsafeForwardingResult(inner, threading.Semaphore(1))
     elif kind == "trd":
         inner = build_stack(spec[1], world, built, path + ("trd",), taggers, make_testtools)
         obj = TestResultDecorator(inner)
